@@ -15,11 +15,16 @@ TRUSTED = ["python urllib.parse.urljoin as an independent RFC 3986 resolver for 
 ASSUMPTIONS = ["no two equal anchors / $ids in one resource", "URIs without userinfo, hosts [a-z0-9.-]+"]
 
 URI_BASES = ["", "http://x.test/d/root.json", "http://x.test/d/", "http://x.test", "https://h.test/a/b/c.json?q=1", "urn:example:root",
-             "http://x.test/d/root.json#frag", "file:///a/b", "http://x.test/a/../b/./c.json"]
+             "http://x.test/d/root.json#frag", "file:///a/b", "http://x.test/a/../b/./c.json", "file:/a/b", "http://[::1]:80/d/r.json"]
 URI_REFS = ["", "#", "#a", "#/a/b", "a.json", "./a.json", "../a.json", "../../a.json", "/a.json", "//o.test/a.json", "http://o.test/z.json",
             "a.json#x", "?q=2", "a/b/../c.json", "./", "../", ".", "..", "a//b.json", ".//a.json", "#a%20b", "#%zz", "a b.json", "%41.json",
             "urn:example:x", "urn:example:x#a", "HTTP://X.test/a", ":bad", "1:b", "a:b", "#é", "é.json", "a.json?x#y", "/..//a", "#/a~1b/~0",
-            "g;x", "g?y/./x", "../../../g", "/./g", "g.", ".g", "..g", "./g/.", "g/./h", "g/../h", "#/%25", "#/a%2Fb"]
+            "g;x", "g?y/./x", "../../../g", "/./g", "g.", ".g", "..g", "./g/.", "g/./h", "g/../h", "#/%25", "#/a%2Fb",
+            # hosts net/url accepts or refuses (parseHost: brackets, ports, escapes, characters)
+            "http://[::1", "http://[::1]/a", "http://[::1]:80/a", "http://[::1]:x/a", "http://[::1]x/a", "http://a:b/", "http://a:/x", "http://a:80/x",
+            "http://a:80:90/x", "http://a b/", "http://a%20b/", "http://a%41/", "http://%C3%A9/", "http://a%25b/", "http://a<b>/", "http://é/x",
+            "http://[fe80::1%25en0]/x", "http://a]b/", "//[::1", "//a:b", "http://a\"b/", "http://a?b", "http://A.B/x", "http://a/%zz",
+            "http://a/b%2Fc", "http://a/b c", "http://:80/x", "http://", "http:", "http:/x", "//", "///x", "////x", "file:/a/b", "file:///a/b", "x:/", "x:/a/../b"]
 
 
 def gen(rng, tier, n):
